@@ -127,6 +127,10 @@ class Check:
     # ---------------------------------------------------------------- Coq
     def coq(self):
         """make the project; compile Props/<ID>.v; count theorems and closed ones."""
+        if not os.path.exists(os.path.join(COQ, "Props", self.pid + ".v")):
+            self.broken.append("coq/Props/%s.v does not exist" % self.pid)
+            self.props_out = ""
+            return False
         with Lock("coq"):
             refresh_coq_project()
             rc, out = sh("timeout 3000 make -j16 Props/%s.vo 2>&1 | tail -40" % self.pid, cwd=COQ)
